@@ -19,7 +19,7 @@ from sim.world import Run
 
 ID = "C16"
 LEVEL = "fault_enumeration"
-RUNS = {"quick": 2400, "thorough": 40000}
+RUNS = {"quick": 2400, "thorough": 240000}
 BUDGET = {"quick": 100.0, "thorough": 3300.0}
 CHUNK = 20
 EXHAUSTIVE = ["every single-bit flip of every octet of each sampled secured cEMI frame, plus wrong-key and all truncations"]
